@@ -7,7 +7,7 @@ import ast
 from ..alpha import Loc, afind, amatch
 from ..cfg import CFG
 from ..const import Folder
-from ..flow import Slicer, flat_guards, parent_map
+from ..flow import Slicer, block_of, flat_guards, parent_map
 from ..model import Model, dotted, norm, walk_no_nested
 from ..report import Run
 from .C05 import _calls_in_stmt
@@ -110,8 +110,17 @@ def check(model: Model, run: Run) -> None:
         g = [(norm(t), pol) for t, pol in flat_guards(se.node, auto[0])]
         okg = sorted(g) == sorted([(gen_p, False), (flag_p, True)])
     run.check(okg, se.qualname, 'automatic EOR under (not new_routes and send_eor)', se.loc(auto[0]) if auto else se.loc(), 'the End-of-RIB marker must follow the last UPDATE of the initial batch: new_routes (the live generator) must be exhausted; RIB.pending() is already false while the generator still holds the batch')
-    clr = [n for n in walk_no_nested(se.node) if isinstance(n, ast.Assign) and dotted(n.targets[0]) == flag_p and folder.fold(n.value, se.module) is False]
-    run.check(len(clr) == 1 and auto and clr[0].lineno < auto[0].lineno + 2, se.qualname, 'send_eor cleared when the EOR is sent', se.loc(), 'exactly one automatic EOR batch per session')
+    # on the path that sends the automatic EOR the flag handed back is False (assigned, or returned directly)
+    cleared = False
+    if auto:
+        blk = block_of(parent_map(se.node), parent_map(se.node).get(id(auto[0])) if not isinstance(parent_map(se.node).get(id(auto[0])), ast.Await) else parent_map(se.node).get(id(parent_map(se.node).get(id(auto[0])))))
+        sts = blk[2] if blk is not None else []
+        for st_ in sts:
+            if isinstance(st_, ast.Assign) and dotted(st_.targets[0]) == flag_p and folder.fold(st_.value, se.module) is False:
+                cleared = True
+            if isinstance(st_, ast.Return) and st_.value is not None and folder.fold(st_.value, se.module) is False:
+                cleared = True
+    run.check(cleared, se.qualname, 'send_eor cleared when the EOR is sent', se.loc(), 'exactly one automatic EOR batch per session')
     ml = Loc(model, mainf)
     flags = ml.from_value(lambda v: norm(v) == 'not self.neighbor.manual_eor')
     thread = [b for n, b in afind('V_e = await self._send_eor_messages(V_e, V_g)', mainf.node) if b['V_e'] in flags]
